@@ -142,6 +142,7 @@ class Taint:
         self.sinks = sinks
         changed = True
         sp = {}
+        upv = {}        # closure path -> indexes of captured variables that reach an allocation sink inside the closure
         rounds = 0
         while changed and rounds < 6:
             changed = False
@@ -156,21 +157,36 @@ class Taint:
                         for i in sp[tgt]:
                             if i - 1 < len(t["args"]):
                                 cand.append((bi, t, i - 1))
-                if not cand:
+                # a closure built here whose captured variable reaches a sink inside the closure body: the captured operand is a sink operand
+                ops = [t["args"][ai] for bi, t, ai in cand if ai < len(t["args"]) and util.op_const(t["args"][ai]) is None]
+                if upv:
+                    for blk in r["blocks"]:
+                        for st in blk["st"]:
+                            rv = st["rv"]
+                            if rv["k"] == "Agg" and rv.get("ak") == "closure" and rv.get("closure") in upv:
+                                for k_ in upv[rv["closure"]]:
+                                    if k_ < len(rv["o"]) and util.op_const(rv["o"][k_]) is None:
+                                        ops.append(rv["o"][k_])
+                if not ops:
                     continue
                 b = bodies.get(p) or cfg.body(r)
                 bodies[p] = b
                 cur = sp.get(p, set())
                 new = set(cur)
-                for bi, t, ai in cand:
-                    if ai >= len(t["args"]) or util.op_const(t["args"][ai]) is not None:
-                        continue
-                    pv = b.provenance(t["args"][ai], through_calls=True, stop=stop)
+                for o in ops:
+                    pv = b.provenance(o, through_calls=True, stop=stop)
                     new |= {i for i, proj in pv.params if not proj or proj in ("*",)}
+                    if "{closure#" in p:
+                        for i, proj in pv.params:
+                            m = re.match(r"^\*?\.(\d+)\*?$", proj or "")
+                            if i == 1 and m and int(m.group(1)) not in upv.get(p, set()):
+                                upv.setdefault(p, set()).add(int(m.group(1)))
+                                changed = True
                 if new != cur:
                     sp[p] = new
                     changed = True
         self.sink_params = sp
+        self.sink_upvars = upv
 
 
 def run(ctx):
@@ -181,6 +197,7 @@ def run(ctx):
     ctx.rule("R8-alloc", "taint: wire integer / wire-filled field / decoder value -> allocation size, interprocedural via parameter summaries; sanitisers min, len, take_n, try_reserve")
     ctx.rule("R8-loop", "taint: the same sources -> end of a Range that is iterated")
     ctx.rule("R8-strategy", "who-may-call VecEncoder::{new,try_new} + edge dominance by the CAN_OOM constant / the size comparison")
+    ctx.rule("R8-visit", "worklist discipline: a push / extend onto a Vec / VecDeque that is popped in the same loop is edge-dominated by a visited-set guard (set.insert(..) == true, or set.contains(..) == false), or reviewed (c17_sizes.tsv)")
     ctx.rule("R8-mat", "inventory of to_vec / collect over hexane columns and decoders built from wire bytes in the parse layer")
     f = ctx.facts()
     T = Taint(f)
@@ -309,3 +326,83 @@ def run(ctx):
             ctx.ob("R8-strategy", k, ok, t["sp"], "only under CAN_OOM or when the claimed size is below the progressive encoder's" if ok else
                    "the one-slot-per-claimed-op encoder is chosen without the CAN_OOM constant or the size comparison: memory follows the op count the metadata claims, not the ops present")
     ctx.floor("VecEncoder constructor call sites", n_ve, 2)
+
+    check_worklists(ctx, f, table)
+
+
+def check_worklists(ctx, f, table):
+    """a graph walk without a visited set visits every *path*: exponential on the braided histories two peers produce by merging both ways"""
+    n = 0
+    for p, r in sorted(f.fns.items()):
+        if r["ckey"] != ("automerge", "lib"):
+            continue
+        b = cfg.body(r)
+        pops = {}
+        for bi, t in b.calls():
+            fn = norm_fn(t.get("fn")) or ""
+            if fn.split("::")[-1] in ("pop", "pop_front", "pop_back") and ("Vec" in fn or "VecDeque" in fn):
+                o = b.operand_origin(t["args"][0])
+                if o:
+                    pops.setdefault((o[0], tuple(x for x in o[1] if x not in ("&", "*"))), []).append(bi)
+        if not pops:
+            continue
+        sites = []
+        for bi, t in b.calls():
+            fn = norm_fn(t.get("fn")) or ""
+            recv = (t.get("argtys") or [""])[0]
+            if fn.split("::")[-1] in ("push", "push_back", "push_front", "extend", "append") and ("Vec" in fn or "VecDeque" in fn or "Vec<" in recv or "VecDeque<" in recv):
+                o = b.operand_origin(t["args"][0])
+                if not o:
+                    continue
+                key = (o[0], tuple(x for x in o[1] if x not in ("&", "*")))
+                if key in pops and any(b.can_reach(pb, bi) and b.can_reach(bi, pb) for pb in pops[key]):
+                    sites.append((bi, t))
+        if not sites:
+            continue
+        ctx.analysed_fns.add(p)
+        guards = []
+        for sb, sw in b.switches():
+            src = b.bool_operand_source(sw["op"])
+            if src and src["kind"] == "call":
+                c = norm_fn(src["callee"]) or ""
+                last = c.split("::")[-1]
+                if not (("Set" in c or "set::" in c) and last in ("insert", "contains")):
+                    continue
+                zero = [tb for v, tb in sw["targets"] if v == "0"]
+                te = [(sb, zero[0])] if src["negated"] and zero else ([] if src["negated"] else [(sb, sw["otherwise"])])
+                fe = [(sb, sw["otherwise"])] if src["negated"] else ([(sb, zero[0])] if zero else [])
+                guards.append((last, te if last == "insert" else fe, src))
+        for k, (bi, t) in util.ordinal_keys(sites, lambda it: "%s|%s onto the worklist" % (norm_fn(p), (norm_fn(it[1].get("fn")) or "?").split("::")[-1])):
+            n += 1
+            ok = any(es and b.edges_dominate(es, bi) for _, es, _s in guards)
+            # visited-on-push (the item inserted into the set is the item pushed, not the item popped): the walk is only correct if the
+            # seeds of the worklist are in the set too — a seed that is also reachable from another seed is otherwise visited twice
+            for last, es, src in guards:
+                if last != "insert" or not (es and b.edges_dominate(es, bi)):
+                    continue
+                it = src["t"]
+                pvi = b.provenance(it["args"][1], through_calls=True)
+                from_pop = any((norm_fn(c) or "").split("::")[-1] in ("pop", "pop_front", "pop_back") for c in pvi.callees())
+                pushed = b.provenance(t["args"][1], through_calls=False).locals & b.provenance(it["args"][1], through_calls=False).locals
+                if from_pop and not pushed:
+                    continue            # visited-on-pop
+                so = b.operand_origin(it["args"][0])
+                wo = b.operand_origin(t["args"][0])
+                if not so or not wo:
+                    continue
+                seeds_ok = False
+                for (db, si, rec) in b.defs().get(wo[0], []):
+                    if any(b.can_reach(pb, db) for pb in pops.get((wo[0], tuple(x for x in wo[1] if x not in ("&", "*"))), [])):
+                        continue        # a definition inside the loop
+                    ops_ = rec["args"] if si == "t" else rec["rv"].get("o", [])
+                    for o_ in ops_:
+                        if so[0] in b.provenance(o_, through_calls=True).locals:
+                            seeds_ok = True
+                ctx.ob("R8-visit", k + "|seeds are in the visited set", seeds_ok, t["sp"], "the worklist is initialised from / filtered through the visited set" if seeds_ok else
+                       "the worklist is seeded without entering the seeds into the visited set: a seed that is an ancestor of another seed is visited (and collected) twice")
+            if not ok and ("R8-visit|" + k) in table:
+                ctx.ob("R8-visit", k, True, t["sp"], "reviewed: " + table["R8-visit|" + k], via="table:" + table["R8-visit|" + k])
+            else:
+                ctx.ob("R8-visit", k, ok, t["sp"], "behind a visited-set guard" if ok else
+                       "items are pushed onto a worklist that is popped in the same loop without a visited-set guard (insert(..) == true / contains(..) == false): the walk follows every path of the graph, exponential on histories with many merges")
+    ctx.floor("pushes onto popped worklists", n, 8)
